@@ -28,6 +28,11 @@
 (*   marker  containers: has an extension marker (after the last non-add   *)
 (*           component)                                                    *)
 (*   vk    "VALUE": the kind of the value ("" otherwise)                   *)
+(*   fault definitions only (C10): the definition is replaced by one that  *)
+(*         is parseable but unsupported -- "REAL" (T ::= REAL), "VIDEOTEX" *)
+(*         (T ::= VideotexString), "INVERTED" (T ::= INTEGER (5..1)),      *)
+(*         "MACRO" (a MACRO definition) -- or, "DUPNAME", is printed under *)
+(*         the name of definition ft of another module                     *)
 (***************************************************************************)
 EXTENDS Integers, Sequences, FiniteSets
 
@@ -68,7 +73,7 @@ TypeDefs == {i \in Defs : nodes[i].k # "VALUE"}
 
 New(k, p, m, role, opt, kw, add, ref, qual, c, tagall, marker, vk) ==
     [k |-> k, p |-> p, m |-> m, role |-> role, opt |-> opt, kw |-> kw, add |-> add, ref |-> ref,
-     qual |-> qual, c |-> c, tagall |-> tagall, marker |-> marker, vk |-> vk]
+     qual |-> qual, c |-> c, tagall |-> tagall, marker |-> marker, vk |-> vk, fault |-> "none", ft |-> 0]
 
 Init == mods = <<>> /\ nodes = <<>> /\ phase = "mods"
 
@@ -139,6 +144,20 @@ AddElem(p, k, c, ta, r, q) ==
     /\ IF k = "REF" THEN RefOK(DefOf(p), r, p, "elem", "req") ELSE r = 0
     /\ q => (k = "REF" /\ nodes[r].m # nodes[p].m)
     /\ nodes' = Append(nodes, New(k, p, nodes[p].m, "elem", "req", "none", FALSE, r, q, c, ta, FALSE, ""))
+    /\ UNCHANGED <<mods, phase>>
+
+\* C10: replace a definition by a parseable but unsupported one / give it a name that already
+\* exists in another module
+FaultKinds == {"REAL", "VIDEOTEX", "INVERTED", "MACRO", "DUPNAME"}
+AddFault(i, f, t) ==
+    /\ phase = "grow" /\ i \in Defs /\ nodes[i].fault = "none" /\ f \in FaultKinds
+    /\ f = "MACRO" \/ f = "DUPNAME" \/ nodes[i].k # "VALUE"                      \* the type faults replace type definitions
+    /\ IF f = "DUPNAME"
+       THEN /\ t \in Defs /\ nodes[t].m # nodes[i].m /\ nodes[t].fault = "none"
+            /\ (nodes[t].k = "VALUE") = (nodes[i].k = "VALUE")                   \* a name of the same lexical class
+            /\ \A j \in Defs : nodes[j].ft # t
+       ELSE t = 0
+    /\ nodes' = [nodes EXCEPT ![i].fault = f, ![i].ft = t]
     /\ UNCHANGED <<mods, phase>>
 
 \* complete: every list has its element type, every CHOICE an alternative that is not an addition,
